@@ -74,3 +74,91 @@ theorem lexesTo_rat (n : Int) (d : Nat) (hd : d ≠ 0) :
     exact ⟨rfl, rfl, rfl⟩
 
 end SteelVerif.C12
+
+namespace SteelVerif.C12
+
+/-! ## punctuation -/
+
+theorem lexOne_open (p : Nat) (cs : Text) :
+    lexOne p '(' cs = { res := .ok (.open_ .round none), pos := p + 1, rest := cs } := rfl
+
+theorem lexOne_close (p : Nat) (cs : Text) :
+    lexOne p ')' cs = { res := .ok (.close .round), pos := p + 1, rest := cs } := rfl
+
+theorem lexOne_vecOpen (p : Nat) (cs : Text) :
+    lexOne p '#' ('(' :: cs) = { res := .ok (.open_ .round (some .vector)), pos := p + 1 + 1, rest := cs } := rfl
+
+theorem lexOne_bytesOpen (p : Nat) (cs : Text) :
+    lexOne p '#' ('u' :: '8' :: '(' :: cs)
+      = { res := .ok (.open_ .round (some .bytes)), pos := p + 1 + 2 + 1, rest := cs } := rfl
+
+theorem lexOne_dot (p : Nat) (cs : Text) :
+    lexOne p '.' (' ' :: cs) = { res := .ok .dot, pos := p + 1, rest := ' ' :: cs } := rfl
+
+/-! ## byte vector elements `#xHH` -/
+
+def isIntTok (r : Option (Except LexErrKind NumLit)) (i : Int) : Bool :=
+  match r with
+  | some (.ok (.real (.int j))) => j == i
+  | _ => false
+
+theorem isIntTok_eq {r : Option (Except LexErrKind NumLit)} {i : Int} (h : isIntTok r i = true) :
+    r = some (.ok (.real (.int i))) := by
+  unfold isIntTok at h
+  split at h
+  · simp at h; subst h; rfl
+  · cases h
+
+set_option maxRecDepth 100000 in
+theorem bytesTok_all : ∀ b : Fin 256,
+    isIntTok (tryParseNumber ('#' :: 'x' :: hexByte b.val)) (Int.ofNat b.val) = true := by
+  decide
+
+set_option maxRecDepth 100000 in
+theorem hexByte_numChars_all : ∀ b : Fin 256, (hexByte b.val).all isNumChar = true := by
+  decide
+
+theorem lexesTo_byte (b : Nat) (hb : b < 256) :
+    LexesTo ('#' :: 'x' :: hexByte b) (.num (.real (.int (Int.ofNat b)))) := by
+  intro rest p hr
+  refine ⟨'#', 'x' :: hexByte b ++ rest, rfl, by decide, ?_⟩
+  have h1 : lexOne p '#' ('x' :: hexByte b ++ rest) = readNumber ['#', 'x'] (p + 1 + 1) (hexByte b ++ rest) := rfl
+  have hn : ∀ c ∈ hexByte b, isNumChar c = true := by
+    have := hexByte_numChars_all ⟨b, hb⟩
+    simpa [List.all_eq_true] using this
+  have ht := isIntTok_eq (bytesTok_all ⟨b, hb⟩)
+  rw [h1, readNumber_ok ['#', 'x'] (hexByte b) rest _ _ hn hr ht]
+  exact ⟨rfl, rfl, rfl⟩
+
+/-! ## booleans -/
+
+theorem scanHashAux_delim (rest : Text) (hr : delimStart rest = true) : scanHashAux false rest = ([], rest) := by
+  cases rest with
+  | nil => rfl
+  | cons c r =>
+    simp only [delimStart, Bool.or_eq_true, beq_iff_eq] at hr
+    rcases hr with h | h <;> subst h <;> rfl
+
+theorem lexesTo_true : LexesTo t!"#true" (.bool true) := by
+  intro rest p hr
+  refine ⟨'#', t!"true" ++ rest, rfl, by decide, ?_⟩
+  have h1 : lexOne p '#' (t!"true" ++ rest) = readHash p (p + 1) (t!"true" ++ rest) := rfl
+  have h2 : scanHash (t!"true" ++ rest) = (t!"true", rest) := by
+    simp [scanHash, scanHashAux, isWs, scanHashAux_delim rest hr]
+  rw [h1]
+  unfold readHash
+  rw [h2]
+  exact ⟨rfl, rfl, rfl⟩
+
+theorem lexesTo_false : LexesTo t!"#false" (.bool false) := by
+  intro rest p hr
+  refine ⟨'#', t!"false" ++ rest, rfl, by decide, ?_⟩
+  have h1 : lexOne p '#' (t!"false" ++ rest) = readHash p (p + 1) (t!"false" ++ rest) := rfl
+  have h2 : scanHash (t!"false" ++ rest) = (t!"false", rest) := by
+    simp [scanHash, scanHashAux, isWs, scanHashAux_delim rest hr]
+  rw [h1]
+  unfold readHash
+  rw [h2]
+  exact ⟨rfl, rfl, rfl⟩
+
+end SteelVerif.C12
